@@ -283,4 +283,11 @@ where
     pub(crate) fn update_A(&mut self, A: &CscMatrix<T>) {
         self.kktsolver.update_A(A);
     }
+
+    /// read-only view of the KKT values at the recorded P and A positions
+    #[cfg(clarabel_verif)]
+    #[allow(clippy::type_complexity)]
+    pub fn verif_kkt_view(&self) -> (Vec<T>, Vec<T>, Option<Vec<T>>, Option<Vec<T>>) {
+        self.kktsolver.verif_kkt_view()
+    }
 }
